@@ -179,6 +179,10 @@ class File(Component):
             self._close()
 
     def write(self, data):
+        if self._fd is not None and self.closed:
+            # closed: nothing to write to, and what is kept now would go
+            # to the file that is opened next
+            return
         if self._poller is not None and not self._poller.isWriting(self._fd):
             self._poller.addWriter(self, self._fd)
         self._buffer.append(data)
